@@ -2,6 +2,7 @@ package c18
 
 import (
 	"fmt"
+	"strings"
 
 	ac "github.com/voedger/voedger/pkg/appdefcompat"
 )
@@ -136,6 +137,57 @@ func apply(s *Schema, e Edit) (*Schema, Claim, error) {
 			return cur, compat, nil
 		}
 		return cur, none, nil
+	case "append_base_field":
+		// VSQL: a field appended at the end of an abstract base table (or of a field set used before other
+		// fields). For every derived table the new field stands in the MIDDLE of its field list (the stored
+		// row layout follows the field order), so the derived table's displaced own fields must be reported.
+		b := n.table(e.WS, e.Name)
+		if b == nil {
+			return nil, none, errNA
+		}
+		var displaced string
+		at := len(b.Fields)
+		for i := range n.WSs[e.WS].Tables {
+			d := &n.WSs[e.WS].Tables[i]
+			if d.Base == e.Name && len(d.Fields) > at {
+				if displaced == "" {
+					displaced = d.Name + "/" + d.Fields[at].N
+				}
+				nl := append([]Field{}, d.Fields[:at]...)
+				nl = append(nl, Field{N: e.New, K: e.K})
+				d.Fields = append(nl, d.Fields[at:]...)
+			}
+		}
+		if displaced == "" {
+			return nil, none, errNA
+		}
+		b.Fields = append(b.Fields, Field{N: e.New, K: e.K})
+		parts := strings.SplitN(displaced, "/", 2)
+		return n, Claim{"reordered", typePath(parts[0], ac.NodeNameFields, parts[1])}, nil
+	case "toggle_required", "change_ref", "remove_unique":
+		// NOT NULL, ref target, UNIQUE: value / write constraints, not in the property's catalogue: correspondence only
+		t := n.table(e.WS, e.Name)
+		if t == nil {
+			return nil, none, errNA
+		}
+		switch e.Kind {
+		case "remove_unique":
+			if len(t.Unique) == 0 {
+				return nil, none, errNA
+			}
+			t.Unique = nil
+		case "toggle_required":
+			if e.I < 0 || e.I >= len(t.Fields) {
+				return nil, none, errNA
+			}
+			t.Fields[e.I].Req = !t.Fields[e.I].Req
+		default:
+			if e.I < 0 || e.I >= len(t.Fields) || t.Fields[e.I].K != 11 || t.Fields[e.I].Ref == e.To {
+				return nil, none, errNA
+			}
+			t.Fields[e.I].Ref = e.To
+		}
+		return n, none, nil
 	case "append_field", "insert_field", "remove_field", "swap_fields", "change_kind", "change_maxlen":
 		fl := n.fieldList(e.WS, e.Name, e.Part)
 		if fl == nil {
@@ -195,6 +247,7 @@ func apply(s *Schema, e Edit) (*Schema, Claim, error) {
 				return nil, none, errNA
 			}
 			l[e.I].K = e.K
+			l[e.I].Ref = ""
 			if e.K != 7 && e.K != 8 {
 				l[e.I].Max = 0
 			}
